@@ -28,7 +28,7 @@ from pysasl.mechanism import ServerChallenge, ChallengeResponse
 from pysasl.creds.client import ClientCredentials
 from pysasl.exception import AuthenticationError
 
-from . import SmtpError
+from . import SmtpError, BadReply
 from .reply import Reply
 
 __all__ = ['ServerAuthError', 'AuthSession']
@@ -164,7 +164,10 @@ class AuthSession(object):
         ret = Reply(command=b'AUTH')
         ret.recv(self.io)
         if ret.code == '334':
-            return base64.b64decode(ret.message), ret
+            try:
+                return base64.b64decode(ret.message), ret
+            except ValueError:
+                raise BadReply(ret.message.encode('utf-8'))
         return None, ret
 
     def client_attempt(self, authcid, secret, authzid, mech_name):
